@@ -32,6 +32,9 @@ pub struct RunOpts {
     pub record_ops: bool,
     /// heap utilisation to reach with a live ballast list before the session starts
     pub ballast: Option<f64>,
+    /// cells the audits and forced collections of this run may scan before the scheduler stops
+    /// forcing collections (kernel::Ctl::audit_work_budget)
+    pub audit_budget: u64,
 }
 
 impl RunOpts {
@@ -41,6 +44,7 @@ impl RunOpts {
             "audit": match self.audit { AuditMode::Off => 0, AuditMode::Every => 1, AuditMode::EveryNth(n) => n },
             "cap": self.cap,
             "ballast": self.ballast,
+            "audit_budget": self.audit_budget,
         })
     }
     pub fn from_json(v: &serde_json::Value) -> RunOpts {
@@ -50,6 +54,7 @@ impl RunOpts {
             cap: v["cap"].as_u64().unwrap_or(300_000),
             record_ops: false,
             ballast: v["ballast"].as_f64(),
+            audit_budget: v["audit_budget"].as_u64().unwrap_or(100_000_000),
         }
     }
 }
@@ -62,6 +67,7 @@ impl Default for RunOpts {
             cap: 300_000,
             record_ops: false,
             ballast: None,
+            audit_budget: 100_000_000,
         }
     }
 }
@@ -118,6 +124,7 @@ fn run_case_inner(case: &Case, opts: &RunOpts) -> RunOut {
         c.audit = opts.audit;
         c.between_forms_gc = case.between_forms_gc;
         c.record_ops = opts.record_ops;
+        c.audit_work_budget = opts.audit_budget;
     }
     let mut obs = vec![];
     let mut ops = vec![];
